@@ -89,7 +89,7 @@ theorem step_agnostic (o : Ops) (s : MSt) (e : MEv) (h : RefFreeEv e) :
     mstep (withBackend o true) s e = mstep (withBackend o false) s e := by
   cases e with
   | start tag attrs =>
-    simp only [mstep, startTag]
+    simp only [mstep, startTag, startTag0]
     rw [startPre_agnostic o s.c tag attrs h]
   | stop tag => rfl
   | data t => rfl
